@@ -32,6 +32,8 @@ fn cases(_ob: &str) -> Vec<String> {
     for i in 0..6 { out.push(format!("sweep:{}", i)); }
     out
 }
+/// inputs whose ill-formed part sits in a second datum are legitimately accepted by a one-shot reader? No: trailing text is an error; nothing is exempt
+fn parser_items_ok_hint(_bytes: &[u8]) -> bool { false }
 fn strs_ok(v: &Value) -> bool {
     match v {
         Value::String(s) => std::str::from_utf8(s.as_bytes()).is_ok(), Value::Symbol(s) | Value::Keyword(s) => std::str::from_utf8(s.as_bytes()).is_ok(),
@@ -49,6 +51,12 @@ fn check(case: &str) -> Option<String> {
                     let mut parser_items: Vec<Result<Value, lexpr::parse::Error>> = vec![];
                     if src == 0 { let mut p = lexpr::Parser::from_slice_custom(&bytes, o.clone()); for _ in 0..6 { match p.next_value() { Ok(Some(v)) => parser_items.push(Ok(v)), Ok(None) => break, Err(e) => { parser_items.push(Err(e)); break; } } } }
                     else { let mut p = lexpr::Parser::from_reader_custom(&bytes[..], o.clone()); for _ in 0..6 { match p.next_value() { Ok(Some(v)) => parser_items.push(Ok(v)), Ok(None) => break, Err(e) => { parser_items.push(Err(e)); break; } } } }
+                    // the one-shot entry points of both APIs on the same bytes
+                    for (name, r) in [("lexpr::from_slice_custom", lexpr::from_slice_custom(&bytes, o.clone())), ("lexpr::datum::from_slice_custom", lexpr::datum::from_slice_custom(&bytes, o.clone()).map(|d| d.value().clone())),
+                                      ("lexpr::datum::from_reader_custom", lexpr::datum::from_reader_custom(&bytes[..], o.clone()).map(|d| d.value().clone()))] {
+                        if let Ok(v) = r { if !strs_ok(&v) { return Some(format!("input {:?}: {} returned a value with ill-formed UTF-8 in a str", String::from_utf8_lossy(&bytes), name)); }
+                                           if !matches!(v, Value::Bytes(_)) && !parser_items_ok_hint(&bytes) { return Some(format!("input {:?} (not UTF-8) was accepted by {} as {}", String::from_utf8_lossy(&bytes), name, v)); } }
+                    }
                     for it in &parser_items { if let Ok(v) = it { if !strs_ok(v) { return Some(format!("input {:?}: a value with ill-formed UTF-8 in a str was returned", String::from_utf8_lossy(&bytes))); } } }
                     // ill-formed bytes inside a string / symbol / keyword / character must not be accepted silently (Emacs unibyte strings come back as bytes)
                     if parser_items.iter().all(|r| r.is_ok()) {
